@@ -122,6 +122,9 @@ def stub_mapper(mapper, recorder: Recorder, mode):
                 img = gm.mk_opaque_container(lab, "concrete")
             elif isinstance(x, gm.OpaqueFunction):
                 img = gm.mk_opaque_function(lab, "concrete")
+                for attr, v in vars(x).items():
+                    if not attr.startswith("_"):
+                        object.__setattr__(img, attr, v)
             else:
                 img = x          # real nested node (container): unchanged
             images[k] = (x, img)
